@@ -510,11 +510,20 @@ def report(prop, mine, results, missing, seed, wall, args):
     if _TIER == 'thorough' and not args.only:
         # validation of the verifier itself (DESIGN 2.4): a failure here is a checker error
         try:
-            from . import crosscheck, modelcheck
-            cc = crosscheck.run(prop, 25, seed)
+            from . import modelcheck
+            import subprocess as _sp
+            # in a process of its own: the native side runs with effectful primitives blocked
+            pcc = _sp.run([sys.executable, '-m', 'pyvc.crosscheck', prop, '--runs', '25', '--json'], cwd=VERIF,
+                          capture_output=True, text=True, timeout=3600,
+                          env=dict(os.environ, VERIF_SEED=str(seed)))
+            try:
+                cc = json.loads(pcc.stdout.strip().splitlines()[-1])
+            except Exception:
+                cc = {'compared': 0, 'failures': ['cross-check crashed: ' + (pcc.stdout + pcc.stderr)[-800:]],
+                      'skipped': {}}
             extra['interpreter_crosscheck_against_cpython'] = {
                 'runs_compared': cc['compared'], 'failures': len(cc['failures']),
-                'functions_without_concrete_inputs': sorted(cc['skipped'])}
+                'functions_without_concrete_inputs_or_with_effects': sorted(cc['skipped'])}
             cases, mfail = modelcheck.run(3)
             extra['string_model_crosscheck_against_cpython'] = {'cases': cases, 'failures': len(mfail)}
             suites = [x for m in mine for x in getattr(m, 'conformance_suites', [])]
